@@ -334,12 +334,15 @@ func Fqdn(s string) string {
 // form is lowercase and fully qualified. Only US-ASCII letters are affected. See
 // Section 6.2 in RFC 4034.
 func CanonicalName(s string) string {
-	return strings.Map(func(r rune) rune {
-		if r >= 'A' && r <= 'Z' {
-			r += 'a' - 'A'
+	// Octet by octet: strings.Map would rewrite octets that are not valid
+	// UTF-8 (a name may hold any octet) to U+FFFD.
+	b := []byte(Fqdn(s))
+	for i, c := range b {
+		if c >= 'A' && c <= 'Z' {
+			b[i] = c + ('a' - 'A')
 		}
-		return r
-	}, Fqdn(s))
+	}
+	return string(b)
 }
 
 // Copied from the official Go code.
